@@ -4,7 +4,7 @@ import vlib, report, parsecheck, families, lr1
 def witness_for(g, lr, L, verbose=False, want='accept'):
     b = lr1.bounds(g, lr, L, verbose=verbose)
     if want == 'recover' and b['recovered']: return 'OUT[O_OK] == 1 && R.ok && R.nmsg >= 1'
-    if b['accepted']: return 'OUT[O_OK] == 1 && R.ok && R.nred >= 1'
+    if b['accepted']: return 'OUT[O_OK] == 1 && R.ok' + (' && R.nred >= 1' if b['acc_nred'] else '')   # some accepted inputs involve no recorded (hash-functor) reduction at all, e.g. tconv 'a'
     return 'OUT[O_NMSG] >= 1 && !R.ok'
 
 def run_parse_property(pid, tier, seed, sel, asserts, rule, outside, assumptions, verbose=0, ws=0, nl=0, want='accept', timeout=None, mem_gb=None,
